@@ -6,6 +6,7 @@ import (
 	"fmt"
 	"go/types"
 	"math"
+	"strings"
 )
 
 const ksuidPkg = "github.com/segmentio/ksuid"
@@ -147,4 +148,28 @@ func init() {
 	externals["math.Ceil"] = f1(math.Ceil)
 	externals["math.Floor"] = f1(math.Floor)
 	externals["math.Sqrt"] = f1(math.Sqrt)
+}
+
+// os error classification: by the rendered message (the file-system stubs of the harnesses
+// build their errors from "file does not exist" / "file already exists").
+func init() {
+	errText := func(fr *frame, e value) string {
+		ei, ok := e.(iface)
+		if !ok || ei.t == nil {
+			return ""
+		}
+		s, ok := callMethod(fr.i, fr, ei, "Error")
+		if !ok {
+			return ""
+		}
+		return goStr(fr.i, s)
+	}
+	externals["os.IsNotExist"] = func(fr *frame, args []value) value {
+		t := errText(fr, args[0])
+		return strings.Contains(t, "does not exist") || strings.Contains(t, "no such file")
+	}
+	externals["os.IsExist"] = func(fr *frame, args []value) value {
+		t := errText(fr, args[0])
+		return strings.Contains(t, "already exists") || strings.Contains(t, "file exists")
+	}
 }
